@@ -410,6 +410,14 @@ func (rs *ResourceSubscription) processGetResponse(payload []byte, err error) (n
 		for sub := range rs.subs {
 			nrs.subs[sub] = struct{}{}
 		}
+
+		// If the normalized query is itself being requested, the subscribers
+		// handed over will be loaded together with its own subscribers once
+		// that response arrives. Loading them here as well would call Loaded
+		// twice on them.
+		if nrs.state == stateRequested {
+			return nrs, nil
+		}
 	} else {
 		nrs = rs
 	}
